@@ -596,6 +596,24 @@ def check_document(ctx, rng, parse_fn, text, flags, cls):
         ctx.count("transform_fields", n_fields)
         if normalize(t_a.to_dict()) != normalize(t_b.to_dict()):
             ctx.violation("transform:%s-differs-from-direct-edit" % vcls.__name__, witness, "")
+        # a shipped transform is a visitor like any other: chained between two recorders it must not keep them
+        # from entering and leaving every node (it renames, it does not prune)
+        from py_gql.lang.visitor import ASTVisitor, ChainedVisitor
+
+        base_log, chain_log = [], []
+        ChainedVisitor(make_recorder(ASTVisitor, base_log, 0, {}), make_recorder(ASTVisitor, base_log, 1, {})).visit(parse_fn(text, **flags))
+        try:
+            ChainedVisitor(make_recorder(ASTVisitor, chain_log, 0, {}), vcls(), make_recorder(ASTVisitor, chain_log, 1, {})).visit(parse_fn(text, **flags))
+        except Exception as e:
+            ctx.violation("transform:%s-in-a-chain-raises-%s" % (vcls.__name__, type(e).__name__), witness, repr(e))
+            continue
+        ctx.count("transform_chain_visits")
+        shape = lambda log: [(ev, tag, type(node).__name__) for ev, tag, node in log if type(node).__name__ != "Name"]  # noqa: E731
+        if shape(base_log) != shape(chain_log):
+            a, b = shape(base_log), shape(chain_log)
+            i = next((k for k, (x, y) in enumerate(zip(a, b)) if x != y), min(len(a), len(b)))
+            ctx.violation("transform:%s-in-a-chain-changes-what-the-other-members-see" % vcls.__name__, witness,
+                          "event %d: without the transform %r, with it %r" % (i, a[i:i + 2], b[i:i + 2]))
 
 
 def run(ctx):
